@@ -304,6 +304,10 @@ func RunDispatch(t *testing.T, sc *DScenario) (recs []interface{}, failure strin
 					a.B, a.E = 1, 0
 				case "0":
 					a = p.next("hbt", 0)
+				case "5": // the peer logs out (we answer) ...
+					a = p.next("logout", 0)
+				case "A": // ... and logs on again: the second lifetime of the same session object
+					a = p.next("logon", 30)
 				default:
 					a = p.next("app", 0)
 				}
